@@ -194,12 +194,30 @@ def run_multi(ctx, pool, pts):
         sel = [rng.choice(kinds) for _ in range(n)]
         enc = rng.choice(E.ENCS)
         state.append({"jwe": {"protected": {"enc": enc}}, "cek": {}, "sel": sel, "i": 0, "enc": enc, "pt": rng.choice(pts)})
+    # the key-management algorithm shared by all recipients (protected or shared unprotected header): recipients
+    # then carry no per-recipient header at all
+    extra_keys = {}
+    def fresh(n, tag):
+        extra_keys[tag] = {"kty": "oct", "k": b64u(rng.randbytes(n))}
+        return tag
+    for place in ("protected", "unprotected"):
+        for w, klen in (("A128KW", 16), ("A256KW", 32), ("A192GCMKW", 24)):
+            for nrec in (2, 3):
+                sel = [(w, fresh(klen, "x-%s-%s-%d-%d" % (place, w, nrec, i))) for i in range(nrec)]
+                jwe = {"protected": {"enc": "A128GCM"}}
+                if place == "protected":
+                    jwe["protected"]["alg"] = w
+                else:
+                    jwe["unprotected"] = {"alg": w}
+                state.append({"jwe": jwe, "cek": {}, "sel": sel, "i": 0, "enc": "A128GCM", "pt": pts[1], "shared": True})
+    def key(n, _k=key):
+        return extra_keys[n] if n in extra_keys else _k(n)
     for step in range(3):
         ops = []
         live = [s for s in state if s["i"] < len(s["sel"]) and not s.get("dead")]
         for s in live:
             w, kn = s["sel"][s["i"]]
-            ops.append(("jwe.enc_jwk", {"jwe": s["jwe"], "rcp": {"header": {"alg": w}}, "jwk": key(kn), "cek": s["cek"],
+            ops.append(("jwe.enc_jwk", {"jwe": s["jwe"], "rcp": {} if s.get("shared") else {"header": {"alg": w}}, "jwk": key(kn), "cek": s["cek"],
                                         "rand": rng.randbytes(200).hex(), "_wrap": w, "_expect_ok": True}))
         if not ops:
             break
@@ -228,7 +246,7 @@ def run_multi(ctx, pool, pts):
                 dec.append(("jwe.dec", {"jwe": tok, "jwk": key(kn), "rand": "00" * 600, "_pt": s["pt"].hex(), "_why": "%s recipient %s of %d" % (side, w, n)}))
             dec.append(("jwe.dec", {"jwe": tok, "jwk": pool["oct-128"], "rand": "00" * 600, "_expect_fail": True, "_why": "foreign key, %d recipients" % n}))
             dec.append(("jwe.dec", {"jwe": tok, "jwk": [pool["oct-128"], key(s["sel"][-1][1])], "rand": "00" * 600, "_pt": s["pt"].hex(), "_why": "key list"}))
-            if side == "jose":
+            if side == "jose" and not s.get("shared"):
                 rew.append((tok, s))
     cmp(ctx, dec, p_dec)
     # re-wrap: recover the CEK with the first recipient's key, wrap it to a new recipient, no re-encryption
